@@ -214,6 +214,9 @@ def gen_targeted(rng, start_idx: int) -> list[dict]:
     for _ in range(3):
         add("grad_noncontig", kind=rng.choice(("alternating", "change_every_step")), grad_kind="noncontig", merge=False,
             shapes=[[3, 3], [4, 3], [3, 3], [3, 6]])
+    for k in range(4):   # same, with use_merge_dims fusing dimensions: the blocked gradient cannot be a view of the gradient (reshape copies)
+        add("grad_noncontig_merged", kind=rng.choice(("alternating", "change_every_step", "random")), grad_kind="noncontig", merge=True,
+            maxdim=6 if k % 2 == 0 else 4, shapes=[[2, 3], [2, 3], [2, 3, 2], [3, 2]] if k % 2 == 0 else [[2, 2], [2, 2], [4], [2, 2, 3]])
     for fr in (2, 3, 2):
         add(f"precondition_frequency_{fr}", kind=rng.choice(("alternating", "change_every_step", "random")), freq=fr, start=fr * rng.randint(1, 2))
     add("start_beyond_history", kind="change_every_step", graft="adam", start=100)
@@ -647,6 +650,14 @@ def audit_classes(spec, res) -> set[str]:
         cl.add("gradient values: " + {"zero_param": "present gradient exactly zero (whole parameter)", "zero_block": "present gradient exactly zero on one block",
                                       "tiny": "magnitude ~1e-5", "diag": "exactly diagonal", "rank1": "rank one", "deadrow": "a dead coordinate (zero row)",
                                       "constant": "constant", "noncontig": "non-default memory layout (transposed / strided)"}[spec["grad_kind"]])
+    if spec["grad_kind"] == "noncontig" and spec["merge"]:
+        for gres in res["groups"]:
+            off = 0
+            for k, nbp in enumerate(gres["nbs"]):
+                rank = sum(1 for d in spec["shapes"][gres["pidx"][k]] if d != 1)
+                if any(o < rank for o in gres["block_orders"][off:off + nbp]):
+                    cl.add("gradient values: non-default memory layout with use_merge_dims fusing dimensions (blocked gradient is a copy)")
+                off += nbp
     if res.get("zero_present_grads"):
         cl.add("gradient values: some present gradient was exactly zero in this run")
     cl.add(f"config: preconditioner {spec['precond']}")
@@ -796,7 +807,6 @@ def run(ck: Check) -> None:
             "PT2-compiled step (shampoo_pt2_compile_config)": "tied by C18; mask changes only trigger recompilation there",
             "parameters on CUDA / eigen_decomp_offload_device": "no GPU in the sandbox",
             "empty (numel 0) parameters": "DistributedShampoo creates 0-size Kronecker factors; LAPACK eigh on 0x0 input is outside what the property speaks about",
-            "gradient with non-default layout together with use_merge_dims=True": "grad.view(merged_dims) legitimately raises for a transposed gradient on the unchanged tree",
             "runs whose low-precision state reaches inf/nan": f"{nonfinite} run(s) of this tier dropped from the comparison (bit-identity with the reference run is undefined for NaN)",
             "value-level comparison of present blocks with the update rule": "C01's job; here a present block is only required to be a function of its own data (reference run) and, in strict mode, to move",
         },
